@@ -26,7 +26,7 @@ What the code does (and the model repeats):
   planned state accepts, else `capture_delta(ts)` (`sinkCapture`):
   - `ts.delta_value()` is NOT link-aware (finding C13-A): for `TSS` / `TSD` it has no value in a pure re-bind cycle
     (→ `capture_delta`, which reads `added()` / `removed()` / `modified_items()`: the difference) but is the new
-    target's OWN delta when that target ticks in the flip cycle; for a `TSB` it carries exactly the children that
+    target's OWN delta when that target ticks in the flip cycle (`if_then_else`; not under `switch_`); for a `TSB` it carries exactly the children that
     ticked by themselves - nothing at all in a pure re-bind cycle; for a `TSL` the copy is rejected or complete
     (correspondence), so what is stored is the port's tick.
   `Capture.asBuilt` is that rule, `Capture.difference` the link-aware rule (always what the accessors show),
@@ -49,6 +49,10 @@ structure Cfg where
   kind : Kind := .set
   /-- `fix` only: the port is a `TSB` (its `delta_value()` is never link-aware) rather than a `TSL` -/
   bundle : Bool := false
+  /-- the selection is a `switch_` whose branches forward an argument, not `if_then_else`: in the cycle of a switch the
+      sink's input has no `delta_value()` the state accepts (the new branch's boundary was bound in this cycle), so the
+      sink captures - the difference - even when the new target ticks (correspondence) -/
+  sw : Bool := false
   cap : Capture := .asBuilt
 deriving Repr, DecidableEq
 
@@ -129,7 +133,7 @@ def sinkCapture (c : Cfg) (flipped : Bool) (own : Option Delta) (port : Delta) (
   let copyOrCapture : Delta :=
     if c.kind == .fix then (if c.bundle then own.getD {} else port)
     else match own with
-      | some d => d
+      | some d => if flipped && c.sw then port else d
       | none => port
   match c.cap with
   | .difference => port
